@@ -409,8 +409,10 @@ def _get_preferred(
 
             temp_unit = quantity._REGISTRY.Unit("")
             for var in vars:
-                if var.xi(i):
-                    temp_unit *= quantity._REGISTRY.Unit(var.name) ** var.xi(i)
+                # the integer variables are reported as floats
+                exponent = round(var.xi(i))
+                if exponent:
+                    temp_unit *= quantity._REGISTRY.Unit(var.name) ** exponent
             optimal_units.append(temp_unit)
 
         sorting_keys = {tuple(sorted(unit._units)): unit for unit in optimal_units}
